@@ -41,24 +41,37 @@ fn main() {
     let hooks_compiled = set_process_hook(false);
     mon.extra.insert("delay_hooks_compiled".into(), json!(hooks_compiled));
 
+    let mut phase_s: BTreeMap<&str, f64> = BTreeMap::new();
+    let mut t = std::time::Instant::now();
+    let mut lap = |name: &'static str, phase_s: &mut BTreeMap<&str, f64>| {
+        phase_s.insert(name, (t.elapsed().as_secs_f64() * 10.0).round() / 10.0);
+        t = std::time::Instant::now();
+    };
     phase_l1_exhaustive(&mut mon, threads);
+    lap("L1x", &mut phase_s);
     phase_l1_random(&mut mon, threads);
+    lap("L1r", &mut phase_s);
     phase_wake(&mut mon);
+    lap("W", &mut phase_s);
 
     // L2a: no hook installed at all
     let l2_par = std::env::var("VERIF_L2_PAR").ok().and_then(|s| s.parse().ok()).unwrap_or((threads * 3 / 8).max(2));
     mon.extra.insert("l2_parallel_runs".into(), json!(l2_par));
     phase_l2(&mut mon, "L2a", false, l2_par);
+    lap("L2a", &mut phase_s);
     if hooks_compiled {
         set_process_hook(true);
         phase_l2(&mut mon, "L2b", true, l2_par);
         set_process_hook(false);
+        lap("L2b", &mut phase_s);
     } else {
         mon.inconclusive("the pool was built without --cfg mithril_verif: no delay hook points, phase L2b (seeded delays) not run");
     }
     if mon.tier == Tier::Thorough && std::env::var("VERIF_NO_L3").is_err() {
         phase_l3(&mut mon);
+        lap("L3", &mut phase_s);
     }
+    mon.extra.insert("phase_seconds".into(), json!(phase_s));
     mon.extra.insert("maxima".into(), json!(*MAXIMA.lock().unwrap()));
     let total_ops = mon.counter("ops.pool_calls");
     mon.extra.insert("pool_operations".into(), json!(total_ops));
@@ -296,7 +309,10 @@ fn phase_wake(mon: &mut Monitor) {
             m.count_n("W.S4_missed_wakeups", out.missed as u64);
             note_max("W.max_latency_after_available_us".into(), out.max_latency_after_available_us);
             for e in &out.errors {
-                m.inconclusive(&format!("wake scenario: {e}"));
+                m.count("W.scenario_errors");
+                if m.counter("W.scenario_errors") <= 1 {
+                    m.inconclusive(&format!("{e} (shard {s} scenario {i}; further occurrences only counted in W.scenario_errors)"));
+                }
             }
             // the safety part of the oracle applies to these small histories as well
             let rep = check(&out.log, cfg.size);
@@ -482,7 +498,7 @@ fn phase_l3(mon: &mut Monitor) {
     let target = std::env::var("VERIF_L3_TARGET").unwrap_or_else(|_| "/tmp/mon-pool-l3-target".into());
     let run = |seed: u64| -> Result<(String, bool), String> {
         let out = std::process::Command::new("cargo")
-            .args(["+nightly", "miri", "run", "--offline", "-q", "-p", "runner", "--", "--runs", "3", "--seed"])
+            .args(["+nightly", "miri", "run", "--offline", "-q", "-p", "runner", "--", "--runs", "2", "--seed"])
             .arg(seed.to_string())
             .current_dir(&dir)
             .env("CARGO_TARGET_DIR", &target)
@@ -551,9 +567,13 @@ fn phase_l3(mon: &mut Monitor) {
                         }
                     } else if let Some(rest) = line.strip_prefix("L3-FINDING ") {
                         let (sig, what) = rest.split_once(" || ").unwrap_or((rest, ""));
+                        if sig == "HARNESS-ERROR" {
+                            mon.inconclusive(&format!("L3 Miri seed {seed}: {what}"));
+                            continue;
+                        }
                         mon.count(&format!("L3.findings.{sig}"));
                         mon.violation(sig, &format!("[L3 Miri seed {seed}] {what}"), json!({"level": "L3", "miri_seed": seed,
-                            "cmd": format!("cd {} && MIRIFLAGS='-Zmiri-seed={seed} -Zmiri-preemption-rate=0.05' RUSTFLAGS='--cfg mithril_verif' cargo +nightly miri run --offline -p runner -- --runs 3 --seed {seed}", dir.display())}));
+                            "cmd": format!("cd {} && MIRIFLAGS='-Zmiri-seed={seed} -Zmiri-preemption-rate=0.05' RUSTFLAGS='--cfg mithril_verif' cargo +nightly miri run --offline -p runner -- --runs 2 --seed {seed}", dir.display())}));
                     }
                 }
             }
@@ -561,6 +581,71 @@ fn phase_l3(mon: &mut Monitor) {
     }
     mon.extra.insert("l3_miri".into(), json!(format!("{seeds} Miri seeds, one process each")));
     mon.extra.insert("L3_distinct_refresh_window_orders_fine".into(), json!(orders.len()));
+    phase_l3_tsan(mon, &dir);
+}
+
+/// ThreadSanitizer build (-Zbuild-std) of the same runner, native threads, larger runs
+fn phase_l3_tsan(mon: &mut Monitor, dir: &std::path::Path) {
+    let target = std::env::var("VERIF_L3_TSAN_TARGET").unwrap_or_else(|_| "/tmp/mon-pool-l3-tsan".into());
+    let build = std::process::Command::new("cargo")
+        .args(["+nightly", "build", "--offline", "-q", "-Zbuild-std", "--target", "x86_64-unknown-linux-gnu", "-p", "runner"])
+        .current_dir(dir)
+        .env("CARGO_TARGET_DIR", &target)
+        .env("RUSTFLAGS", "--cfg mithril_verif -Zsanitizer=thread")
+        .env_remove("RUSTUP_TOOLCHAIN")
+        .output();
+    let ok = matches!(&build, Ok(o) if o.status.success());
+    if !ok {
+        let why = match build {
+            Ok(o) => String::from_utf8_lossy(&o.stderr).lines().rev().take(6).collect::<Vec<_>>().join(" | "),
+            Err(e) => e.to_string(),
+        };
+        mon.extra.insert("l3_tsan".into(), json!(format!("skipped: {why}")));
+        mon.count("L3.tsan_skipped");
+        println!("[C18] L3 (TSan) skipped: {why}");
+        return;
+    }
+    let bin = std::path::Path::new(&target).join("x86_64-unknown-linux-gnu/debug/runner");
+    let out = std::process::Command::new(&bin)
+        .args(["--native", "--runs", "80", "--ops", "20000", "--seed"])
+        .arg(mon.seed.to_string())
+        .env("TSAN_OPTIONS", "halt_on_error=0 exitcode=0")
+        .output();
+    let Ok(out) = out else {
+        mon.inconclusive("L3 TSan: cannot run the instrumented runner");
+        return;
+    };
+    let so = String::from_utf8_lossy(&out.stdout);
+    let se = String::from_utf8_lossy(&out.stderr);
+    if !so.contains("L3-DONE") {
+        mon.inconclusive(&format!("L3 TSan: the instrumented runner did not finish (status {:?})", out.status.code()));
+        return;
+    }
+    let races = se.matches("WARNING: ThreadSanitizer").count() as u64;
+    mon.count_n("L3.tsan_reports", races);
+    mon.eval();
+    if races > 0 {
+        let head: String = se.lines().take(60).collect::<Vec<_>>().join("\n");
+        mon.violation("C18 ThreadSanitizer reported a data race in the pool workload", &format!("{races} report(s)"), json!({"level": "L3-tsan", "first_report": head}));
+    }
+    for line in so.lines() {
+        if let Some(rest) = line.strip_prefix("L3-COUNT ") {
+            if let Some((k, v)) = rest.split_once('=') {
+                if let Ok(v) = v.trim().parse::<u64>() {
+                    mon.count_n(&format!("L3tsan.{}", k.trim()), v);
+                }
+            }
+        } else if let Some(rest) = line.strip_prefix("L3-FINDING ") {
+            let (sig, what) = rest.split_once(" || ").unwrap_or((rest, ""));
+            if sig == "HARNESS-ERROR" {
+                mon.inconclusive(&format!("L3 TSan: {what}"));
+                continue;
+            }
+            mon.count(&format!("L3tsan.findings.{sig}"));
+            mon.violation(sig, &format!("[L3 TSan build] {what}"), json!({"level": "L3-tsan", "seed": mon.seed}));
+        }
+    }
+    mon.extra.insert("l3_tsan".into(), json!("80 native runs of the ThreadSanitizer build"));
 }
 
 // ---------------------------------------------------------------------------------------------
